@@ -2,10 +2,13 @@
 package c07
 
 import (
+	"bytes"
 	"encoding/json"
 	"fmt"
+	"runtime"
 	"strings"
 	"sync"
+	"sync/atomic"
 	"testing"
 	"time"
 
@@ -360,6 +363,62 @@ func nonTrivial(sc Scenario) bool {
 	return false
 }
 
+// cutsEngine: a fixed stream of four frames (Len classes 0-12, 13-268, 269+, a signalling frame) under
+// every single cut position and every pair "cut, then one byte, then cut", for three cache sizes.
+func cutsEngine(t *testing.T) evid.Engine {
+	frames := []refcodec.Msg{
+		{Code: 1, Token: []byte{0xa1}, Opts: []refcodec.Opt{{Num: 11, Val: []byte("a")}}},
+		{Code: 2, Token: []byte{1, 2, 3, 4, 5, 6, 7, 8}, Opts: []refcodec.Opt{{Num: 11, Val: []byte("path")}, {Num: 12, Val: []byte{42}}}, Payload: bytes.Repeat([]byte{0x31}, 40)},
+		{Code: 226, Token: []byte{0x77, 0x78}},
+		{Code: 69, Token: []byte{0xb2, 0xb3}, Opts: []refcodec.Opt{{Num: 4, Val: []byte{1, 2, 3}}, {Num: 2049, Val: bytes.Repeat([]byte{7}, 20)}}, Payload: bytes.Repeat([]byte{0x32}, 300)},
+	}
+	total := 0
+	for _, f := range frames {
+		total += len(peer.Frame(f))
+	}
+	return evid.Engine{Name: "cuts",
+		Replay: func(raw json.RawMessage) *evid.Failure {
+			var sc Scenario
+			if err := json.Unmarshal(raw, &sc); err != nil {
+				return &evid.Failure{Key: "replay/decode", Msg: err.Error()}
+			}
+			return evid.SafeExec("cuts", func(s Scenario) *evid.Failure { return Exec(t, s, evid.New(t, "C07-replay")) }, sc)
+		},
+		Search: func(r *evid.Run) {
+			var scs []Scenario
+			for _, cache := range []int{1, 3, 2048} {
+				for i := 1; i < total; i++ {
+					scs = append(scs, Scenario{CacheSize: cache, MaxMsg: 70000, Frames: frames, OversizeAt: -1, Cuts: []int{i, 1 << 20}})
+					if i+1 < total {
+						scs = append(scs, Scenario{CacheSize: cache, MaxMsg: 70000, Frames: frames, OversizeAt: -1, Cuts: []int{i, 1, 1 << 20}})
+					}
+				}
+			}
+			var wg sync.WaitGroup
+			var idx atomic.Int64
+			for w := 0; w < runtime.GOMAXPROCS(0); w++ {
+				wg.Add(1)
+				go func() {
+					defer wg.Done()
+					for {
+						i := int(idx.Add(1)) - 1
+						if i >= len(scs) {
+							return
+						}
+						if f := evid.SafeExec("cuts", func(s Scenario) *evid.Failure { return Exec(t, s, r) }, scs[i]); f != nil {
+							r.Fail(f)
+							return
+						}
+						r.Eval(1)
+						r.AddDistinct(1)
+					}
+				}()
+			}
+			wg.Wait()
+			r.Note("exhaustive_subdomain", fmt.Sprintf("a fixed 4-frame stream of %d bytes under every single cut and every cut/1 byte/cut triple, connection cache sizes 1, 3, 2048 (%d segmentations)", total, len(scs)))
+		}}
+}
+
 func TestCheck(t *testing.T) {
 	r := evid.New(t, "C07")
 	eng := evid.RapidEngine("framing", evid.RapidOpts{Quick: 12000, Thorough: 300000, Crashy: true}, gen, func(sc Scenario) *evid.Failure {
@@ -382,7 +441,7 @@ func TestCheck(t *testing.T) {
 		Rule:        "a stream connection (tcp.Client on an in-memory stream, connection cache size in {1,2,3,7,64,2048}) fed by the scripted peer with 1-12 frames from the C01 generator (all Len classes, TKL 0-8, signalling and ordinary codes, payloads beyond 65805 occasionally), cut by a generated segmentation (single bytes, cuts inside headers, several frames per segment), each segment followed by quiescence; optionally one frame is replaced by a header declaring more than the maximum message size (max, max+1, 2*max, next to 2^32) with no body byte supplied. Oracle: handler log and signal log equal the sent sequence whatever the segmentation, every Ping answered by a Pong with its token, oversize: nothing from that frame on is delivered and the connection is closed with an error reported. Non-trivial = >= 2 frames and a cut inside a header or >= 2 frames in one segment (measured: class framing/nontrivial-segmentation); distinct by scenario",
 		Assumptions: []string{"connection cache size 0 is not a usable configuration and is not generated", "a frame's header is Len, extended length, code and token: all of them are supplied before the close is required"},
 		Floor:       300,
-	}, eng)
+	}, eng, cutsEngine(t))
 }
 
 // summary keeps evidence samples small (payload bytes elided).
